@@ -7,7 +7,8 @@ algebraic laws a BVH builder relies on when it folds boxes in an arbitrary order
 well-formed box containing both arguments (so a union that over-grows is also a departure from the model), union and
 intersection are commutative, associative and idempotent, a fold of unions contains every member whatever the order,
 `from_union_point` is the union with the degenerate box of the point, `new` gives the least box of its two corners,
-and `max_extent` really names a longest axis, `surface_area` is that of the box.
+and `max_extent` really names a longest axis, `surface_area` is that of the box.  Last section: `transform_bbox` gives the
+*least* box around the images of the corners (`bboxWith_least`), hence around the image of the box, and is monotone.
 -/
 namespace G3d.C15
 open G3d Num
@@ -172,6 +173,68 @@ theorem surfaceArea_mono {a b : BBox ℝ} (ha : WF a) (h : Sub a b) : a.surfaceA
   have m3 := mul_le_mul dy dz az (by linarith)
   show (2:ℝ) * _ ≤ (2:ℝ) * _
   linarith
+
+/-! ## the transformed box is tight -/
+
+theorem sub_refl (a : BBox ℝ) : Sub a a := ⟨le_refl _, le_refl _, le_refl _, le_refl _, le_refl _, le_refl _⟩
+
+theorem sub_trans {u v w : BBox ℝ} : Sub u v → Sub v w → Sub u w := by
+  rintro ⟨a1, a2, a3, a4, a5, a6⟩ ⟨b1, b2, b3, b4, b5, b6⟩
+  exact ⟨by linarith, by linarith, by linarith, by linarith, by linarith, by linarith⟩
+
+theorem sub_antisymm {a b : BBox ℝ} (h1 : Sub a b) (h2 : Sub b a) : a = b := by
+  obtain ⟨a1, a2, a3, a4, a5, a6⟩ := h1
+  obtain ⟨b1, b2, b3, b4, b5, b6⟩ := h2
+  rcases a with ⟨⟨x0, y0, z0⟩, ⟨x1, y1, z1⟩⟩
+  rcases b with ⟨⟨u0, v0, w0⟩, ⟨u1, v1, w1⟩⟩
+  simp only at a1 a2 a3 a4 a5 a6 b1 b2 b3 b4 b5 b6
+  simp only [BBox.mk.injEq, V3.mk.injEq]
+  exact ⟨⟨le_antisymm b1 a1, le_antisymm b3 a3, le_antisymm b5 a5⟩, le_antisymm a2 b2, le_antisymm a4 b4, le_antisymm a6 b6⟩
+
+theorem fromPoint_sub_iff (p : V3 ℝ) (c : BBox ℝ) : Sub (BBox.fromPoint p) c ↔ Contains c p := by
+  simp only [Sub, Contains, BBox.fromPoint]
+
+theorem unionPoint_least {b c : BBox ℝ} {p : V3 ℝ} (hb : Sub b c) (hp : Contains c p) : Sub (b.fromUnionPoint p) c := by
+  rw [unionPoint_eq_union]; exact union_least hb ((fromPoint_sub_iff p c).2 hp)
+
+/-- **the transformed box is tight**: any box that contains the images of the eight corners contains `transform_bbox`'s result;
+    so the result is the least box around the image of the box (an implementation that pads or adds a stray point departs) -/
+theorem bboxWith_least (m : M4 ℝ) (b c : BBox ℝ)
+    (h : ∀ cx ∈ ({b.min.x, b.max.x} : Set ℝ), ∀ cy ∈ ({b.min.y, b.max.y} : Set ℝ), ∀ cz ∈ ({b.min.z, b.max.z} : Set ℝ),
+      Contains c (m.mulPoint ⟨cx, cy, cz⟩)) : Sub (Transform.bboxWith m b) c := by
+  unfold Transform.bboxWith
+  have L : ∀ x, x ∈ ({b.min.x, b.max.x} : Set ℝ) ↔ (x = b.min.x ∨ x = b.max.x) := by intro x; simp
+  have hmn : ∀ {s t : ℝ}, s ∈ ({s, t} : Set ℝ) := by intro s t; simp
+  have hmx : ∀ {s t : ℝ}, t ∈ ({s, t} : Set ℝ) := by intro s t; simp
+  refine unionPoint_least (unionPoint_least (unionPoint_least (unionPoint_least (unionPoint_least (unionPoint_least
+    (unionPoint_least ((fromPoint_sub_iff _ _).2 ?_) ?_) ?_) ?_) ?_) ?_) ?_) ?_
+  · exact h _ hmn _ hmn _ hmn
+  · exact h _ hmx _ hmn _ hmn
+  · exact h _ hmn _ hmx _ hmn
+  · exact h _ hmn _ hmn _ hmx
+  · exact h _ hmn _ hmx _ hmx
+  · exact h _ hmx _ hmx _ hmn
+  · exact h _ hmx _ hmn _ hmx
+  · exact h _ hmx _ hmx _ hmx
+
+/-- for a well-formed box: the transformed box is the least box containing the image of every point -/
+theorem bboxWith_least_image {m : M4 ℝ} {b c : BBox ℝ} (hb : WF b)
+    (h : ∀ p, Contains b p → Contains c (m.mulPoint p)) : Sub (Transform.bboxWith m b) c := by
+  obtain ⟨w1, w2, w3⟩ := hb
+  apply bboxWith_least
+  intro cx hx cy hy cz hz
+  simp only [Set.mem_insert_iff, Set.mem_singleton_iff] at hx hy hz
+  apply h
+  rcases hx with rfl | rfl <;> rcases hy with rfl | rfl <;> rcases hz with rfl | rfl <;>
+    exact ⟨by first | exact le_refl _ | assumption, by first | exact le_refl _ | assumption,
+      by first | exact le_refl _ | assumption, by first | exact le_refl _ | assumption,
+      by first | exact le_refl _ | assumption, by first | exact le_refl _ | assumption⟩
+
+/-- the transformed box only depends on the point set: it is monotone in the box -/
+theorem bboxWith_mono {m : M4 ℝ} (hm : M4.Affine m) {a b : BBox ℝ} (ha : WF a) (h : Sub a b) :
+    Sub (Transform.bboxWith m a) (Transform.bboxWith m b) :=
+  bboxWith_least_image ha (fun _ hp => bbox_contains_image hm (sub_contains h hp))
+
 
 /-- non-vacuity: a concrete pair of boxes, their union and a third box above both -/
 example : Sub (BBox.fromUnion ⟨⟨0, 0, 0⟩, ⟨1, 1, 1⟩⟩ ⟨⟨2, -1, 0⟩, ⟨3, 0, 0⟩⟩ : BBox ℝ) ⟨⟨-1, -1, -1⟩, ⟨3, 1, 1⟩⟩ :=
